@@ -120,6 +120,8 @@ func c31process(t *testing.T, r *rt.Run, c *rt.Case, k c31case, bins string) {
 			c.Violation("refusal-exit-status|bisquitt", "bisquitt refused to start but exited with status 0: "+k.String(), witness(map[string]interface{}{"output": tool.output()}))
 		case wantRefuse && !exited:
 			c.Inconclusive("bisquitt neither exited nor bound its port within 4 s")
+		case !wantRefuse && exited && strings.Contains(tool.output(), "address already in use"):
+			c.Inconclusive("the UDP port chosen for bisquitt was taken by another process")
 		case !wantRefuse && exited:
 			c.Violation("refused-needlessly|bisquitt", fmt.Sprintf("bisquitt exited with status %d although the configuration is allowed: %s", code, k), witness(map[string]interface{}{"output": tool.output()}))
 		case !wantRefuse && !bound:
